@@ -406,13 +406,14 @@ pub fn final_state_violation(expect_all_dead: bool) -> Option<(String, String, S
     }
     // Every node owns exactly one hand-over envelope. Two nodes owning the same one means that
     // two helpers will write their replacement pointers into the same cell: the next reader
-    // helped by both can be handed a pointer nobody counted (and the other count leaks).
+    // helped by both can be handed a pointer nobody counted (and the other count leaks), or the
+    // value a helper loaded from another container.
     let offers = arc_swap::verif::space_offers();
     for i in 0..offers.len() {
         for j in i + 1..offers.len() {
             if offers[i] != 0 && offers[i] == offers[j] {
                 return Some((
-                    "C01,C02".into(),
+                    "C01,C02,C03,C12".into(),
                     "envelope".into(),
                     format!("nodes {} and {} both own the hand-over envelope {:#x} at quiescence (one envelope was lost, one is shared)", i, j, offers[i]),
                 ));
